@@ -1661,6 +1661,33 @@ func directBuiltinCallbackOnElements(sf *ssa.Function) token.Pos {
 			}
 		}
 	}
+	// the same through a helper that is handed the builtin and the element and
+	// makes the call: it must bound the nesting (a counter carried in the context
+	// and compared with a constant before the call)
+	for _, b := range sf.Blocks {
+		for _, in := range b.Instrs {
+			call, ok := in.(*ssa.Call)
+			if !ok {
+				continue
+			}
+			cal := call.Call.StaticCallee()
+			if cal == nil || cal.Blocks == nil || !core.RepoFunc(cal) {
+				continue
+			}
+			elem := false
+			for _, a := range call.Call.Args {
+				if fromItems(a) {
+					elem = true
+				}
+			}
+			if !elem {
+				continue
+			}
+			if pos := callsBuiltinParamUnbounded(cal); pos != token.NoPos {
+				return call.Pos()
+			}
+		}
+	}
 	// the same inside a function literal of the method (a `call` closure chosen by the callback's type),
 	// when the method walks its elements
 	walks := false
@@ -1800,4 +1827,68 @@ func isVisitedSetMethod(g *ssa.Function) bool {
 		}
 	}
 	return looks && inserts
+}
+
+// callsBuiltinParamUnbounded: f calls the Go function of a *Builtin it was
+// handed as a parameter, and no comparison of a counter read from the context
+// with a constant dominates that call.
+func callsBuiltinParamUnbounded(f *ssa.Function) token.Pos {
+	for _, b := range f.Blocks {
+		for _, in := range b.Instrs {
+			call, ok := in.(*ssa.Call)
+			if !ok || call.Call.IsInvoke() || call.Call.StaticCallee() != nil {
+				continue
+			}
+			u, ok := call.Call.Value.(*ssa.UnOp)
+			if !ok || u.Op != token.MUL {
+				continue
+			}
+			fa, ok := u.X.(*ssa.FieldAddr)
+			if !ok || !core.IsNamed(fa.X.Type(), pkgPath("object"), "Builtin") {
+				continue
+			}
+			if _, isParam := fa.X.(*ssa.Parameter); !isParam {
+				continue
+			}
+			bounded := false
+			for _, b2 := range f.Blocks {
+				if len(b2.Instrs) == 0 || b2 == b || !b2.Dominates(b) {
+					continue
+				}
+				iff, ok := b2.Instrs[len(b2.Instrs)-1].(*ssa.If)
+				if !ok {
+					continue
+				}
+				bo, ok := iff.Cond.(*ssa.BinOp)
+				if !ok {
+					continue
+				}
+				switch bo.Op {
+				case token.LSS, token.LEQ, token.GTR, token.GEQ:
+				default:
+					continue
+				}
+				_, kx := bo.X.(*ssa.Const)
+				_, ky := bo.Y.(*ssa.Const)
+				if kx == ky {
+					continue
+				}
+				v := bo.X
+				if kx {
+					v = bo.Y
+				}
+				fromCtx := func(w ssa.Value) bool {
+					c2, ok := w.(*ssa.Call)
+					return ok && c2.Call.IsInvoke() && c2.Call.Method.Name() == "Value" && core.IsNamed(c2.Call.Value.Type(), "context", "Context")
+				}
+				if fromCtx(v) || core.DependsOn(v, fromCtx) {
+					bounded = true
+				}
+			}
+			if !bounded {
+				return call.Pos()
+			}
+		}
+	}
+	return token.NoPos
 }
